@@ -65,7 +65,10 @@ CLAIMS = {
               "common clock-system abstraction; and the same exactness for channels / Notify / park / condvars (Props/Race2.lean, "
               "under the run condition okRun), whose proof attempt found F26 (Notify::notify leaked causality to another "
               "notifier; repaired c6f0cab, Race2.Repaired.* and a stored-path witness replayed through a checkpoint). F17 "
-              "repaired (3b12fce). Known: F7, F27 (SeqCst fence order treated as happens-before hides a race)."),
+              "repaired (3b12fce). The reference's own race detection (vector clocks of Spec/SC.lean) is proved to decide the "
+              "declarative data race: Props/VCSound.lean race_reported_iff_unordered_conflict over executions with history "
+              "and a declaratively defined happens-before (locks, rwlocks, Notify, park, channels, cells). Known: F7, F27 "
+              "(SeqCst fence order treated as happens-before hides a race)."),
         ref="DESIGN.md §3 C04",
         technique="Lean 4 decision-logic theorems for the race detector + race oracles (RC11, SC+vector clocks) + decision replay"),
     "C05": dict(
@@ -192,7 +195,7 @@ CLAIMS = {
               "Four abort defects found this way were repaired (F8, F12, F13, F28: fix commits c00b711, 8c1ee7c, 6d9d832, 17a6006; "
               "F28 = lazy statics / thread-locals with loom-using destructors dropped outside the execution); the branch "
               "limit must be raised at every limit below a program's need; "
-              "F11 (closure of a never-started thread dropped outside the model) is not reachable through the DSL."),
+              "F11 (closure of a never-started thread dropped outside the execution) repaired as well (bde1841)."),
         ref="DESIGN.md §3 C06",
         technique="Lean 4 proof over the check loop + panic-injection correspondence runs with process-survival oracle"),
     "C17": dict(
